@@ -26,6 +26,7 @@ EXPLANATION = (
     "facts entail the documented domain of the argument (linear entailment), and the rejecting outcome raises ValueError where "
     "documented before any request. (R3) an unknown setting id raises ValueError without any request. The first sentence of the "
     "property is decided in full (reachability is a statement about code shape)."
+    ' R1 also checks the factories the classification relies on: Inverter._read_command / _write_command / _write_multi_command return exactly self._protocol.<same factory>(<their arguments>), and the protocol factories return one fresh construction of the matching command class from self._comm_addr and their own arguments.'
 )
 
 READ_ONLY = ("read_device_info", "read_runtime_data", "read_sensor", "read_setting", "read_settings_data", "get_grid_export_limit",
